@@ -8,6 +8,7 @@
 import NdnVerif.C02.Model
 import NdnVerif.C01.FwLemmas
 import NdnVerif.C01.FwLemmas2
+import NdnVerif.C01.FwLemmas3
 namespace Ndn.Fw.C02
 open Ndn Ndn.Fw Ndn.Fw.Spec
 
@@ -147,5 +148,186 @@ example :
     let e : Entry := ⟨[⟨8, [97]⟩], false, false, none, 0, [⟨2, 7, 1000, []⟩], [], false, some 1000⟩
     let s : St := { faces := [⟨1, true, .p2p⟩, ⟨2, true, .p2p⟩, ⟨3, true, .p2p⟩], fib := [([], [(3, 1)])], pit := [e], nextTok := 1 }
     step s (.interest 1 { name := [⟨8, [97]⟩], nonce := some 7 } [] 0) = (s, []) := by decide
+
+/-! ### theorems about reachable states (`WF`, see `C01.wf_reachable`) -/
+
+theorem fwd_eq_of_forward {s f i tie pick} {s' : St} {tok nonce : Nat} {hop : Option Nat}
+    (h : onInterest s f i tie pick = forwardInterest s' tok i nonce hop f tie) :
+    fwd s f i tie pick = (forwardInterest s' tok i nonce hop f tie).2.filter (!·.isData) := by
+  unfold fwd; simp only [step]; rw [h]
+
+theorem filter_fwdSends {i : Interest} {hop : Option Nat} {tok : Nat} (l : List (FaceId × Nat)) :
+    (l.map fun nh => fwdSend i hop tok nh.1).filter (!·.isData) = l.map fun nh => fwdSend i hop tok nh.1 := by
+  rw [List.filter_eq_self]
+  intro a ha
+  rw [List.mem_map] at ha
+  obtain ⟨x, _, rfl⟩ := ha
+  rfl
+
+/-- A different-nonce retransmission inside the suppression interval is aggregated, not forwarded:
+    if the PIT entry of the Interest holds an out-record with another nonce sent less than the
+    suppression interval ago, no Interest leaves (the in-record is still added / refreshed). -/
+theorem retx_suppressed_within_interval (s : St) (hwf : WF s) (f : FaceId) (i : Interest) (tie : List FaceId) (pick : Nat)
+    (nonce : Nat) (e : Entry) (r : OutRec)
+    (hn : i.nonce = some nonce) (hnh : i.nextHop = none)
+    (he : preEntry s i = some e) (hr : r ∈ e.outRecs) (hdiff : r.nonce ≠ nonce)
+    (hint : s.now < r.sentAt + suppressionInterval) :
+    fwd s f i tie pick = [] := by
+  rcases onInterest_forms s hwf f i tie pick with h | ⟨ce, cs', _, _, h⟩ | ⟨inF, hop, nonce', s', tok, e', hacc, hst, heq⟩
+  · unfold fwd; simp only [step]; rw [h]; rfl
+  · unfold fwd; simp only [step]; rw [h]
+    rw [List.filter_eq_nil_iff]
+    intro a ha
+    simp [dataSends_isData a ha]
+  · have hnn : nonce' = nonce := by have := hacc.hnonce; rw [hn] at this; cases this; rfl
+    subst hnn
+    rw [fwd_eq_of_forward heq, forwardInterest_eq s' tok i nonce' hop f tie e' hst.entry hnh]
+    have hsup : suppressed s'.now e' nonce' = true := by
+      unfold suppressed
+      rw [hst.outs, he, hst.now]
+      simp only [Option.map_some, Option.getD_some, List.any_eq_true, Bool.and_eq_true, bne_iff_ne, decide_eq_true_eq]
+      exact ⟨r, hr, hdiff, hint⟩
+    simp [hsup]
+
+example :
+    let e : Entry := ⟨[⟨8, [97]⟩], false, false, none, 0, [⟨1, 7, 4000, []⟩], [⟨3, 7, 0, 4000, [⟨8, [97]⟩]⟩], false, some 4000⟩
+    let s : St := { now := 100, faces := [⟨1, true, .p2p⟩, ⟨3, true, .p2p⟩], fib := [([], [(3, 1)])], pit := [e], nextTok := 1 }
+    (step s (.interest 1 { name := [⟨8, [97]⟩], nonce := some 8 } [] 0)).2 = [] := by decide
+
+/-- The first Interest for content not in the cache that has a usable next hop is forwarded, with its
+    hop limit reduced by one: no PIT entry for it yet, nonce present and not dead, hop limit not zero,
+    arrival scope respected, Content Store miss, and some next hop of the longest-prefix FIB entry
+    passes the outgoing pipeline ⇒ at least one copy leaves, every send is such a copy carrying the new
+    entry's token. Both strategies, every tie order. -/
+theorem first_interest_forwarded_hop_minus_one (s : St) (hwf : WF s) (f : FaceId) (i : Interest) (tie : List FaceId)
+    (pick : Nat) (inF : Face) (hop : Option Nat) (nonce : Nat) (g : FaceId) (c : Nat)
+    (hF : faceOf s.faces f = some inF) (hsc : (!inF.isLocal && isLocalhost i.name) = false)
+    (hhop : hopStep i.hop = some hop) (hn : i.nonce = some nonce) (hdead : dnlHas s.dnl i.name nonce = false)
+    (hfirst : preEntry s i = none) (hcs : s.csServe = false ∨ csFind s.now s.cs i pick = none)
+    (hnh : i.nextHop = none)
+    (hg : (g, c) ∈ lpmNextHops s.fib (lookupName s.regions i)) (hu : usableOut s.faces f i.name hop g = true) :
+    (step s (.interest f i tie pick)).2 ≠ [] ∧
+    ∀ snd ∈ (step s (.interest f i tie pick)).2, ∃ g', snd = .interest g' i.name hop (.mine s.nextTok) := by
+  have hdup : ∀ e, preEntry s i = some e → (e.inRecs.any fun r => r.face != f && r.nonce == nonce) = false := by
+    intro e he; rw [hfirst] at he; cases he
+  rcases onInterest_stage s hwf f i tie pick inF hop nonce hF hhop hsc hn hdead hdup with
+    ⟨ce, cs', hsv, hfind, _⟩ | ⟨s', tok, e', hst, heq⟩
+  · rcases hcs with h | h
+    · rw [h] at hsv; cases hsv
+    · rw [h] at hfind; cases hfind
+  · obtain ⟨htok, hin⟩ := hst.fresh hfirst
+    subst htok
+    simp only [step]
+    rw [heq, forwardInterest_eq s' s.nextTok i nonce hop f tie e' hst.entry hnh]
+    have hsup : suppressed s'.now e' nonce = false := by
+      unfold suppressed; rw [hst.outs, hfirst]; rfl
+    have hall : (g, c) ∈ allowedNhs s' i e' f := by
+      apply mem_allowed_of_not_held hst hg
+      rintro ⟨_, e, he, _⟩
+      rw [hfirst] at he; cases he
+    simp only [hsup, Bool.false_eq_true, if_false, hst.faces]
+    cases lpmStrat s'.strat i.name with
+    | best =>
+      simp only []
+      cases hfnd : (sortNh tie (allowedNhs s' i e' f)).find? (fun nh => usableOut s.faces f i.name hop nh.1) with
+      | none =>
+        exfalso
+        have := List.find?_eq_none.mp hfnd (g, c) (mem_sortNh.mpr hall)
+        simp [hu] at this
+      | some nh =>
+        simp only []
+        exact ⟨by simp, by intro snd h; simp at h; exact ⟨nh.1, h⟩⟩
+    | multi =>
+      simp only []
+      constructor
+      · intro hnil
+        have : fwdSend i hop s.nextTok g ∈ ((allowedNhs s' i e' f).filter fun nh => usableOut s.faces f i.name hop nh.1).map
+            fun nh => fwdSend i hop s.nextTok nh.1 := by
+          rw [List.mem_map]
+          exact ⟨(g, c), List.mem_filter.mpr ⟨hall, hu⟩, rfl⟩
+        rw [hnil] at this
+        simp at this
+      · intro snd h
+        rw [List.mem_map] at h
+        obtain ⟨nh, _, rfl⟩ := h
+        exact ⟨nh.1, rfl⟩
+
+example :
+    let s : St := { faces := [⟨1, true, .p2p⟩, ⟨2, false, .p2p⟩], fib := [([], [(2, 1)])] }
+    (step s (.interest 1 { name := [⟨8, [97]⟩], nonce := some 5, hop := some 4 } [] 0)).2 =
+      [.interest 2 [⟨8, [97]⟩] (some 3) (.mine 0)] := by decide
+
+/-- best-route uses the lowest-cost usable next hop: exactly one copy is sent, and its cost is minimal
+    among the next hops of the longest-prefix FIB entry that pass the outgoing pipeline and are not
+    held back (a face other than the arrival face that already has an in-record in the entry) —
+    for EVERY order `tie` in which the unstable sort may leave equal costs. -/
+theorem bestroute_min_cost (s : St) (hwf : WF s) (f : FaceId) (i : Interest) (tie : List FaceId) (pick : Nat)
+    (hstrat : lpmStrat s.strat i.name = .best) (hnh : i.nextHop = none)
+    (snd : Send) (h : snd ∈ fwd s f i tie pick) :
+    fwd s f i tie pick = [snd] ∧
+    ∃ hop c, hopStep i.hop = some hop ∧ (snd.face, c) ∈ lpmNextHops s.fib (lookupName s.regions i) ∧
+      ∀ g' c', (g', c') ∈ lpmNextHops s.fib (lookupName s.regions i) →
+        usableOut s.faces f i.name hop g' = true → ¬heldBy s i f g' → c ≤ c' := by
+  rcases onInterest_forms s hwf f i tie pick with h0 | ⟨ce, cs', _, _, h0⟩ | ⟨inF, hop, nonce, s', tok, e', hacc, hst, heq⟩
+  · unfold fwd at h; simp only [step] at h; rw [h0] at h; simp at h
+  · unfold fwd at h; simp only [step] at h; rw [h0] at h
+    have := List.mem_filter.mp h
+    simp [dataSends_isData snd this.1] at this
+  · rw [fwd_eq_of_forward heq, forwardInterest_eq s' tok i nonce hop f tie e' hst.entry hnh] at h ⊢
+    rw [hst.strat, hstrat] at h ⊢
+    simp only [hst.faces] at h ⊢
+    by_cases hsup : suppressed s'.now e' nonce = true
+    · simp [hsup] at h
+    · simp only [hsup, Bool.false_eq_true, if_false] at h ⊢
+      cases hfnd : (sortNh tie (allowedNhs s' i e' f)).find? (fun nh => usableOut s.faces f i.name hop nh.1) with
+      | none => simp [hfnd] at h
+      | some nh =>
+        simp only [hfnd] at h ⊢
+        have hs : snd = fwdSend i hop tok nh.1 := by
+          simpa [fwdSend, Send.isData] using h
+        subst hs
+        refine ⟨by simp [fwdSend, Send.isData], hop, nh.2, hacc.hhop, ?_, ?_⟩
+        · exact mem_nhs_of_allowed hst (mem_sortNh.mp (List.mem_of_find?_eq_some hfnd))
+        · intro g' c' hg' hu' hfree
+          have hmem : (g', c') ∈ sortNh tie (allowedNhs s' i e' f) :=
+            mem_sortNh.mpr (mem_allowed_of_not_held hst hg' hfree)
+          exact find_first_le (sorted_sortNh tie _) hfnd hmem hu'
+
+example :
+    let s : St := { faces := [⟨1, true, .p2p⟩, ⟨2, false, .p2p⟩, ⟨3, false, .p2p⟩, ⟨4, false, .p2p⟩],
+                    fib := [([], [(2, 5), (1, 0), (3, 1), (4, 1)])] }
+    (step s (.interest 1 { name := [⟨8, [97]⟩], nonce := some 5 } [] 0)).2 = [.interest 3 [⟨8, [97]⟩] none (.mine 0)] ∧
+    (step s (.interest 1 { name := [⟨8, [97]⟩], nonce := some 5 } [4] 0)).2 = [.interest 4 [⟨8, [97]⟩] none (.mine 0)] := by decide
+
+/-- multicast uses all of them: when multicast forwards at all, every next hop of the longest-prefix FIB
+    entry that passes the outgoing pipeline and is not held back receives a copy. -/
+theorem multicast_all (s : St) (hwf : WF s) (f : FaceId) (i : Interest) (tie : List FaceId) (pick : Nat)
+    (hstrat : lpmStrat s.strat i.name = .multi) (hnh : i.nextHop = none)
+    (snd : Send) (h : snd ∈ fwd s f i tie pick) :
+    ∃ hop tok, hopStep i.hop = some hop ∧
+      ∀ g' c', (g', c') ∈ lpmNextHops s.fib (lookupName s.regions i) →
+        usableOut s.faces f i.name hop g' = true → ¬heldBy s i f g' →
+        Send.interest g' i.name hop (.mine tok) ∈ fwd s f i tie pick := by
+  rcases onInterest_forms s hwf f i tie pick with h0 | ⟨ce, cs', _, _, h0⟩ | ⟨inF, hop, nonce, s', tok, e', hacc, hst, heq⟩
+  · unfold fwd at h; simp only [step] at h; rw [h0] at h; simp at h
+  · unfold fwd at h; simp only [step] at h; rw [h0] at h
+    have := List.mem_filter.mp h
+    simp [dataSends_isData snd this.1] at this
+  · refine ⟨hop, tok, hacc.hhop, ?_⟩
+    rw [fwd_eq_of_forward heq, forwardInterest_eq s' tok i nonce hop f tie e' hst.entry hnh] at h ⊢
+    rw [hst.strat, hstrat] at h ⊢
+    simp only [hst.faces] at h ⊢
+    by_cases hsup : suppressed s'.now e' nonce = true
+    · simp [hsup] at h
+    · simp only [hsup, Bool.false_eq_true, if_false] at h ⊢
+      intro g' c' hg' hu' hfree
+      rw [filter_fwdSends, List.mem_map]
+      exact ⟨(g', c'), List.mem_filter.mpr ⟨mem_allowed_of_not_held hst hg' hfree, hu'⟩, rfl⟩
+
+example :
+    let s : St := { faces := [⟨1, true, .p2p⟩, ⟨2, false, .p2p⟩, ⟨3, false, .p2p⟩, ⟨4, true, .adhoc⟩],
+                    fib := [([], [(2, 5), (1, 0), (3, 1), (9, 1), (4, 7)])], strat := [([], .multi)] }
+    (step s (.interest 1 { name := [⟨8, [97]⟩], nonce := some 5 } [] 0)).2 =
+      [.interest 2 [⟨8, [97]⟩] none (.mine 0), .interest 3 [⟨8, [97]⟩] none (.mine 0), .interest 4 [⟨8, [97]⟩] none (.mine 0)] := by decide
 
 end Ndn.Fw.C02
